@@ -537,6 +537,7 @@ func runUnCase(k UnCase) (verdict string) {
 }
 
 func runC17(c *Ctx) {
+	c17FailingSource(c)
 	var names []string
 	for n := range unTargets {
 		names = append(names, n)
